@@ -311,7 +311,7 @@ theorem C02_recovery_direct_partial (s : Sys) (hs : s.WF) (hnq : s.useQueue = fa
     on commit 2, which does not contain it; with the atomic push nothing moves. -/
 theorem C02_nonatomic_counterexample :
     let s := Demo.s1
-    let p := planPr s ⟨1, "feature/x", .dev 4 (some 3)⟩ .final [] []
+    let p := planPr s ⟨1, "feature/x", .dev 4 (some 3), false⟩ .final [] []
     let rej : Ref → Bool := fun r => r == .dest (.dev 5 (some 1))
     let na := p.ops.foldl (applyOpNA p.g rej) s.remote
     let at_ := applyOps p.g rej s.remote p.ops
@@ -323,7 +323,7 @@ theorem C02_nonatomic_counterexample :
 /-- `Demo.s1` is well-formed, satisfies inclusion and the queue invariant, the pull request is not queued and its
     source exists: every hypothesis of `C02_prefix_safe` / `C02_all_or_none_evalPr` / `C02_dest_only_in_one_atomic_push` -/
 example : Demo.s1.WF ∧ Demo.s1.Incl ∧ QueueInv Demo.s1 ∧
-    alreadyQueued Demo.s1 ⟨1, "feature/x", .dev 4 (some 3)⟩ = false ∧
+    alreadyQueued Demo.s1 ⟨1, "feature/x", .dev 4 (some 3), false⟩ = false ∧
     Demo.s1.remote.get (.other "feature/x") = some 3 :=
   ⟨Demo.s1_WF, Demo.s1_Incl, Demo.s1_QueueInv, by decide, by decide⟩
 
@@ -332,7 +332,7 @@ example : Demo.s1.WF ∧ Demo.s1.Incl ∧ QueueInv Demo.s1 ∧
     refused in it, no destination has moved (NONE) while the integration branch is already on the remote -/
 example :
     let s := Demo.s1
-    let p := planPr s ⟨1, "feature/x", .dev 4 (some 3)⟩ .final [] []
+    let p := planPr s ⟨1, "feature/x", .dev 4 (some 3), false⟩ .final [] []
     let all := observableAt s p (fun _ _ => false) 2
     let crash := observableAt s p (fun _ _ => false) 1
     let refused := observableAt s p (fun i r => i == 1 && r == .dest (.dev 5 (some 1))) 2
@@ -348,8 +348,8 @@ example :
     let s0 := BertE.Drv.C01.initSys true false [.dev 4 (some 3), .dev 5 (some 1)]
     let s1 := (step s0 (.extSet "feature/x" [1] false)).1
     let s2 := (step s1 (.extSet "feature/y" [1] false)).1
-    let s3 := (step s2 (.evalPr ⟨1, "feature/x", .dev 4 (some 3)⟩ .final [] [])).1
-    let s4 := (step s3 (.evalPr ⟨2, "feature/y", .dev 4 (some 3)⟩ .final [] [])).1
+    let s3 := (step s2 (.evalPr ⟨1, "feature/x", .dev 4 (some 3), false⟩ .final [] [])).1
+    let s4 := (step s3 (.evalPr ⟨2, "feature/y", .dev 4 (some 3), false⟩ .final [] [])).1
     let p := planQueues s4 [1]
     let obs := observableAt s4 p (fun _ _ => false) 1
     s4.queue.map (·.pr) = [1, 2] ∧ p.ops.map Op.atomic = [true] ∧
@@ -364,7 +364,7 @@ example :
     here git fast-forwards both runs onto the integration branch) -/
 example :
     let s := Demo.s1
-    let pr : PrInfo := ⟨1, "feature/x", .dev 4 (some 3)⟩
+    let pr : PrInfo := ⟨1, "feature/x", .dev 4 (some 3), false⟩
     let p := planPr s pr .final [] []
     let s' := interrupted s p (fun _ _ => false) 1
     let p' := planPr s' pr .final [] []
@@ -446,7 +446,7 @@ theorem C02_validated_or_nothing (s : Sys) (hs : s.WF) (hincl : s.Incl) (hc : Ca
     the next evaluation merges it - inclusion holds, the queue commit shown is landed, but the change is then on
     development/5.1 and not on development/4.3 until the pull request is evaluated again (`close_queued_pull_request`
     sees the partial merge and wakes it up). `validate()` cannot see a target on which nothing at all was written. -/
-def qvPr : PrInfo := ⟨1, "feature/x", .dev 4 (some 3)⟩
+def qvPr : PrInfo := ⟨1, "feature/x", .dev 4 (some 3), false⟩
 def qvS : Sys := ⟨⟨[[0], [0, 1], [0, 1, 2], [0, 1, 3]]⟩,
    [(.dest (.dev 4 (some 3)), 1), (.dest (.dev 5 (some 1)), 2), (.other "feature/x", 3)],
    [(4, some 3), (5, some 1)], [], [], true, false⟩
@@ -526,7 +526,7 @@ example :
     let s := RecDemo.k4
     let pr := RecDemo.prX
     let p := planPr s pr .final [] []
-    let rej : Nat → Ref → Bool := fun i r => i == 1 && r == .q RecDemo.d51
+    let rej : Nat → Ref → Bool := fun i r => i == 2 && r == .q RecDemo.d51     -- q/4.3 is deleted first (cascade order)
     let s' := interrupted s p rej 3
     let p' := planPr s' pr .final [] []
     s.WF ∧ s.useQueue = true ∧ s.skipQueue = true ∧ alreadyQueued s pr = false ∧
@@ -623,9 +623,9 @@ example :
     let landed := interrupted s p (fun _ _ => false) 1
     p.ops.map Op.atomic = [true] ∧ (allQRefs s.remote).length = 6 ∧ refused.remote = s.remote ∧
     allQRefs landed.remote = [] ∧ (plan { landed with queue := p.queue } .dropQueues).ops = [] ∧
-    (plan s (.reset ⟨1, "feature/y", RecDemo.d43⟩)).ops.map Op.atomic = [true] ∧
+    (plan s (.reset ⟨1, "feature/y", RecDemo.d43, false⟩)).ops.map Op.atomic = [true] ∧
     (s.remote.get (.w RecDemo.d51 "feature/y")).isSome = true ∧
-    (applyOps s.g noRej s.remote (plan s (.reset ⟨1, "feature/y", RecDemo.d43⟩)).ops).get (.w RecDemo.d51 "feature/y") = none := by
+    (applyOps s.g noRej s.remote (plan s (.reset ⟨1, "feature/y", RecDemo.d43, false⟩)).ops).get (.w RecDemo.d51 "feature/y") = none := by
   decide
 
 /-! ### crash / refusals inside `add_to_queue`
